@@ -15,6 +15,7 @@ import (
 	"path/filepath"
 	"sort"
 	"strings"
+	"sync"
 	"time"
 	_ "unsafe"
 
@@ -140,6 +141,7 @@ func synthetic() []*source {
 	b.WriteString("func f(x int) int { println(x); return x }\n")
 	b.WriteString("func pair() (int, string) { return 7, \"seven\" }\nfunc triple() (int, int, int) { return 1, 2, 3 }\n")
 	b.WriteString("var pa, pb = pair()\nvar t1, t2, t3 = triple()\n")
+	b.WriteString("var esc = []string{\"tab\\there\", \"quote\\\"inside\", \"nl\\nline\", \"uni\\u00e9x\", \"hex\\x41\\x42\", \"oct\\101z\", \"back\\\\slash\", \"" + strings.Repeat("long\\\\t\\\\u00e9\\\\x41-", 40) + "\"}\n")
 	b.WriteString("type hidden struct{ x, y int; name string }\nvar hv = hidden{1, 2, \"h\"}\n")
 	for i := 0; i < 10; i++ {
 		fmt.Fprintf(&b, "type T%d struct{ A%d int; B string }\nfunc m%d(t T%d) int { return t.A%d + %d }\n", i, i, i, i, i, i)
@@ -148,7 +150,7 @@ func synthetic() []*source {
 	for i := 0; i < 10; i++ {
 		fmt.Fprintf(&b, "\ts += m%d(T%d{A%d: host.F%02d(%d), B: \"s%d\"})\n", i, i, i, i, i, i)
 	}
-	b.WriteString("\tprintln(s, v0, host.C03, h2.C05, host.V01, pa, pb, t1, t2, t3, hv.x+hv.y, hv.name)\n")
+	b.WriteString("\tprintln(s, v0, host.C03, h2.C05, host.V01, pa, pb, t1, t2, t3, hv.x+hv.y, hv.name)\n\tfor _, e := range esc {\n\t\tprintln(e)\n\t}\n")
 	b.WriteString("\tm := map[string]int{\"a\": 1, \"b\": 2, \"c\": 3, \"d\": 4, \"e\": 5, \"f\": 6, \"g\": 7, \"h\": 8, \"i\": 9, \"j\": 10}\n\tprintln(len(m))\n")
 	b.WriteString("\ti := 0\nL1:\n\tif i < 3 { i++; goto L1 }\n\tif i < 5 { i += 2; goto L3 }\n\ti = 100\nL3:\n\tprintln(i)\n")
 	b.WriteString("\tk := 2\n\ta, c, d := k, k*2, k*3\n\tf0 := func() int { return a + c + d + i }\n\tf1 := func() int { return f0() + a }\n\tprintln(f0(), f1())\n")
@@ -167,7 +169,7 @@ func synthetic() []*source {
 	for i := 0; i < 12; i++ {
 		fmt.Fprintf(&idx, "{{ M%02d(%d) }}", i, i)
 	}
-	idx.WriteString("{{ m2.X(1) }}{{ host.F03(2) }}{{ title }}{{ render \"part.html\" }}{% end %}\n{% macro Title %}T{{ g03 }}{% end %}\n")
+	idx.WriteString("{{ m2.X(1) }}{{ \"a\\tb\\u00e9\\\"q\\\"\" }}{{ host.F03(2) }}{{ title }}{{ render \"part.html\" }}{% end %}\n{% macro Title %}T{{ g03 }}{% end %}\n")
 	out = append(out, &source{name: "synthetic/template-big", entry: "index.html", run: true, opts: opts, files: map[string]string{
 		"index.html":   idx.String(),
 		"layout.html":  "<html><title>{{ Title() }}</title><body class=\"{{ g01 }}\">{{ Body() }}<script>var x = {{ g02 }};</script></body></html>",
@@ -215,6 +217,9 @@ func sources(tier string) []*source {
 	var all []*source
 	all = append(all, synthetic()...)
 	for _, p := range c14.Programs("thorough") {
+		if p.GcSrc != "" {
+			continue // uses the C14 harness' native package
+		}
 		all = append(all, &source{name: "c14/" + p.Name, files: map[string]string{"main.go": p.Src}})
 	}
 	max := 1200
@@ -372,6 +377,64 @@ func spaces(tier string) []kit.Space {
 			s, it, d := locate(i)
 			return map[string]any{"source": s.name, "iterator": it, "offset": d, "iterators": s.iters}
 		},
+	})
+	// companion space (free-running, decides nothing by its silence): the same
+	// source built by 8 goroutines at once, 4 rounds, with the stock map order;
+	// every artefact must equal the sequential baseline. Builds share no state
+	// by contract, so a difference is a genuine nondeterminism of Build.
+	sps = append(sps, kit.Space{
+		Name: "concurrent-builds(companion)",
+		Size: uint64(len(srcs)),
+		Eval: func(i uint64) kit.Outcome {
+			s := srcs[i]
+			mapOrder(0, 0, 0, 0, 0)
+			g, rounds := 8, 4
+			if strings.HasPrefix(s.name, "synthetic/") {
+				rounds = 60 // the stress sources: many rounds
+			}
+			type res struct {
+				fp  string
+				err error
+			}
+			out := make([]res, g*rounds)
+			var wg sync.WaitGroup
+			// half of the goroutines build another source at the same time (two
+			// builds of the same text would write the same bytes into any shared scratch state)
+			partner := srcs[(i+1)%uint64(len(srcs))]
+			if !strings.HasPrefix(s.name, "synthetic/") {
+				partner = srcs[0]
+			}
+			for k := 0; k < g; k++ {
+				wg.Add(1)
+				go func(k int) {
+					defer wg.Done()
+					for r := 0; r < rounds; r++ {
+						if k%2 == 1 {
+							build(partner)
+							out[k*rounds+r] = res{s.base, nil}
+							continue
+						}
+						fp, err := build(s)
+						out[k*rounds+r] = res{fp, err}
+					}
+				}(k)
+			}
+			wg.Wait()
+			for _, r := range out {
+				if r.err != nil || r.fp != s.base {
+					d := "build failed: " + fmt.Sprint(r.err)
+					cls := "error"
+					if r.err == nil {
+						d = firstDiff(s.base, r.fp)
+						cls = diffClass(s.base, r.fp)
+					}
+					return kit.Outcome{Key: "concurrent-builds-differ|" + cls, Nontrivial: true,
+						Detail: fmt.Sprintf("source %s built by %d goroutines at once gives an artefact different from the sequential build:\n%s\nfiles: %v", s.name, g, d, s.files)}
+				}
+			}
+			return kit.Outcome{OK: true, Nontrivial: true, Class: "identical(concurrent)", Ops: g * rounds}
+		},
+		Describe: func(i uint64) any { return map[string]any{"source": srcs[i].name, "goroutines": 8, "rounds": "4 (60 for synthetic sources)"} },
 	})
 	return sps
 }
